@@ -86,6 +86,9 @@ class Script(System):
                 val = float(env.cells.loc[cid, "res"])
                 env.cells.loc[cid, "res"] = val - 1.0
                 o["near"].append([a.id, "ate", cid, int(round(val * 2))])
+        if getattr(m, "bag", None) is not None:
+            m.bag.append(m.random.randint(0, 9))
+            o["near"].append(["bag", len(m.bag), sum(m.bag)])
         if "churn" in self.mix:
             if m.random.random() < 0.4 and len(env) > 1:
                 a = env.get_random_agent()
@@ -182,6 +185,16 @@ class StochModel(Model):
             self.environment.add_agent(a, r.randint(0, 24) / 4.0, r.randint(0, 16) / 4.0)
 
 
+class StochDecoded(StochModel):
+    """The same model, built from a JSON description; it keeps a list from its description and adds to it while it runs."""
+
+    @staticmethod
+    def decode(params):
+        m = StochDecoded(seed=params["seed"], kind=params["kind"], n=params["n"], mix=params["mix"])
+        m.bag = params["bag"]
+        return m
+
+
 class StochKw(StochModel):
     """The same model written the way many user models are: it forwards what it does not know to its base class."""
 
@@ -207,7 +220,34 @@ def perturb(v, salt):
 
 def _key(prog):
     c = prog["config"]
-    return "%s/%d/%s/seed=%r" % (c["kind"], c["n"], c["mix"], prog["seed"])
+    return "%s%s/%d/%s/seed=%r" % ("decoded:" if c.get("decoded") else "", c["kind"], c["n"], c["mix"], prog["seed"])
+
+
+_DESC_DIR = []
+
+
+def make_model(c, seed):
+    """The model of configuration c: built directly, or (c["decoded"]) decoded from a JSON description of it - every copy from
+    the same file, as re-runs and repetitions do."""
+    if not c.get("decoded"):
+        return StochModel(seed, c["kind"], c["n"], c["mix"])
+    import tempfile
+    from ECAgent.Decode import JsonDecoder
+    if not _DESC_DIR:
+        _DESC_DIR.append(tempfile.mkdtemp(prefix="verif-det-"))
+        import atexit
+        import shutil
+        atexit.register(shutil.rmtree, _DESC_DIR[0], True)
+    import hashlib
+    doc = {"model": {"name": "StochDecoded", "module": __name__,
+                     "params": {"seed": seed, "kind": c["kind"], "n": c["n"], "mix": c["mix"], "bag": [1, 2, 3]}},
+           "systems": [], "agents": []}
+    text = json.dumps(doc, sort_keys=True)
+    path = os.path.join(_DESC_DIR[0], hashlib.sha1(text.encode()).hexdigest()[:16] + ".json")
+    if not os.path.exists(path):
+        with open(path, "w") as f:
+            f.write(text)
+    return JsonDecoder().decode(path)
 
 
 def run_inline(prog):
@@ -220,7 +260,7 @@ def run_inline(prog):
         if step[0] == "A":
             k = step[1]
             if k not in copies:
-                copies[k] = StochModel(prog["seed"], c["kind"], c["n"], c["mix"])
+                copies[k] = make_model(c, prog["seed"])
             copies[k].execute()
         elif step[0] == "P":
             perturb(step[1], salt)
@@ -228,7 +268,7 @@ def run_inline(prog):
             # the other model is stepped from INSIDE the next timestep of copy k (by its hook system)
             k = step[1]
             if k not in copies:
-                copies[k] = StochModel(prog["seed"], c["kind"], c["n"], c["mix"])
+                copies[k] = make_model(c, prog["seed"])
             if other is None:
                 other = StochModel(100003 + salt, c["kind"], c["n"] + 1, c["mix"])
             copies[k].systems["hook"].todo = other.execute
@@ -347,8 +387,10 @@ SPATIAL = [{"kind": k, "n": n, "mix": mix}
 # a one-shot system that unregisters itself, and several systems of one priority whose order shows in the trajectory
 SETUPS = [{"kind": k, "n": 4, "mix": "setup,pick,shuffle,churn"} for k in ("plain", "grid", "tspace")] + \
          [{"kind": k, "n": 5, "mix": "cells,move,near"} for k in ("grid", "tgrid")]
+DECODED = [{"kind": k, "n": 4, "mix": "pick,shuffle,churn", "decoded": True} for k in ("plain", "grid")]
 HASHCFG = SPATIAL + SETUPS
-CONFIGS = CONFIGS + SPATIAL + SETUPS
+DIRECT = CONFIGS + SPATIAL + SETUPS          # configurations built by calling the model class (batch workers, grid search)
+CONFIGS = DIRECT + DECODED
 
 
 def schedule_from_walk(walk):
